@@ -660,7 +660,7 @@ func (u *Unit) exec(p *Path, in ssa.Instruction) {
 			_ = id
 		}
 		if obj := x.Object(); obj != nil {
-			if _, isVar := obj.(*types.Var); isVar {
+			if tv, isVar := obj.(*types.Var); isVar && !tv.IsField() { // a selector x.f names a field, not a variable
 				if os.Getenv("JVC_DBGREF") == obj.Name() {
 					fmt.Printf("DebugRef %s := %v (%T) addr=%v in block %d of %s\n", obj.Name(), x.X, x.X, x.IsAddr, x.Block().Index, x.Parent().Name())
 				}
@@ -694,9 +694,6 @@ func (u *Unit) exec(p *Path, in ssa.Instruction) {
 					}
 				}
 				p.names[obj.Name()] = val
-				if tv, ok := obj.(*types.Var); ok && tv.IsField() {
-					fieldNames[obj.Name()] = true
-				}
 				if x.IsAddr {
 					p.nameAddr[obj.Name()] = true
 				} else {
@@ -1152,10 +1149,16 @@ func (u *Unit) execSlice(p *Path, x *ssa.Slice) {
 	case *types.Pointer: // pointer to array
 		at := ut.Elem().Underlying().(*types.Array)
 		arr := u.val(p, x.X)
-		if lo != nil || hi != nil {
-			u.fail("partial slice of array")
+		if lo != nil && !(lo.Op == "#int" && lo.Lit == "0") {
+			u.fail("slice of an array with a non-zero lower bound is not modelled (slice offsets are assumed 0)")
 		}
-		p.vals[x] = enc.Mk("mk_Slice", arr, IntLit(0), IntLit(at.Len()), IntLit(at.Len())).WithT(x.Type())
+		ln := IntLit(at.Len())
+		if hi != nil {
+			o := u.ob(u.siteName(x, "slice"), "safe", nil, "slice bounds out of range")
+			u.check(p, o, And(Ge(hi, IntLit(0)), Le(hi, IntLit(at.Len()))))
+			ln = hi
+		}
+		p.vals[x] = enc.Mk("mk_Slice", arr, IntLit(0), ln, IntLit(at.Len())).WithT(x.Type())
 	case *types.Basic: // string
 		s := u.val(p, x.X)
 		if lo == nil {
@@ -1285,9 +1288,6 @@ func (u *Unit) stringIndex(p *Path, x ssa.Value, sv, iv ssa.Value) {
 	p.assume(And(Ge(b, IntLit(0)), Le(b, IntLit(255))))
 	p.vals[x] = b.WithT(x.Type())
 }
-
-// fieldNames: source-level names that denote struct fields (never candidates when a renamed local is resolved).
-var fieldNames = map[string]bool{}
 
 // opaqueOp: an operator the logic does not interpret is an uninterpreted function of its operands.
 func (u *Unit) opaqueOp(x *ssa.BinOp, a, b *Term) *Term {
